@@ -29,7 +29,7 @@ RoundUp(n, a) == ((n + a - 1) \div a) * a
 (* far apart, so order is lexicographic in (rank of anchor, delta) as long *)
 (* as |delta| stays small.  The harness maps anchors to concrete literals. *)
 Anchors == <<"i128min", "i64min", "i32min", "i16min", "i8min", "0", "i8max", "u8max", "i16max", "u16max",
-             "i32max", "u32max", "i64max", "u64max", "i128max", "u128max">>
+             "i32max", "u32max", "p60", "p61", "p62", "i64max", "u64max", "i128max", "u128max">>
 AnchorRank(a) == CHOOSE i \in DOMAIN Anchors : Anchors[i] = a
 NumNone == [a |-> "none", d |-> 0]
 Num(a, d) == [a |-> a, d |-> d]
